@@ -3,9 +3,9 @@
    n-field table; recast after melt rebuilds every row cell for cell, one output row per input row in ascending key order,
    when keys are unique (the row-building code of recast_model, named recast_group / recast_cell, on the sorted + grouped
    melt); pivot's cell law (pivot_cells, the fold pivot_model runs per f1-group); fromdicts(dicts(t)) = t and
-   fromcolumns(columns(t)) = t.  Unpack/split frames are modelled as written
+   fromcolumns(columns(t)) = t; the frame of unpack (all other cells unchanged, one cell per new field).  split / splitdown are modelled as written
    (model/Reshape.v), tied by the correspondence, and judged on every run on the implementation's output (not mechanised). *)
-From Verif Require Import PyVal Rows ComparableGen Sort Joins JoinRel Basics Reductions Reshape ReshapeFacts RecastFacts PivotFacts DictsFacts.
+From Verif Require Import PyVal Rows ComparableGen Sort Joins JoinRel Basics Reductions Reshape ReshapeFacts RecastFacts PivotFacts DictsFacts UnpackFacts.
 From Coq Require Import Sorted.
 
 Theorem C14_transpose_involutive : forall n hdr t, (1 <= n)%nat -> rect n (hdr :: t) ->
@@ -83,6 +83,20 @@ Theorem C14_fromcolumns_columns_id : forall (m1 m2 : val) (hdr : row) (rows : li
   map fst cols = hdr /\ fromcolumns_model (map fst cols) m2 (map snd cols) = hdr :: rows.
 Proof. exact fromcolumns_columns_id. Qed.
 
+(* unpack expands one field and leaves every other cell of the row unchanged, in order (unpack_row is the function unpack_model
+   maps over the rows): the output is the row (include_original) or the row without the unpacked cell, then the unpacked
+   cells; a sequence value gives exactly one cell per new field - its items in order, `missing` where it has none *)
+Theorem C14_unpack_frame : forall (inc : bool) (i : Z) (n : nat) (missing : val) (r out : row), 0 <= i ->
+  unpack_row inc i n missing r = Ok out ->
+  exists v cells, py_nth r i = Some v /\ unpack_cells n missing v = Ok cells /\
+    out = (if inc then r else firstn (Z.to_nat i) r ++ skipn (S (Z.to_nat i)) r) ++ cells.
+Proof. exact unpack_row_frame. Qed.
+
+Theorem C14_unpack_sequence_cells : forall (n : nat) (missing : val) (b : bool) (l : list val) cells,
+  unpack_cells n missing (VSeq b l) = Ok cells ->
+  length cells = n /\ (forall j, (j < n)%nat -> nth j cells VNone = if (j <? length l)%nat then nth j l VNone else missing).
+Proof. exact unpack_cells_seq. Qed.
+
 (* melt emits the same number of rows for every input row when no cell is missing (one per variable) *)
 Theorem C14_rows_times_variables : forall (A B : Type) (f : A -> list B) (l : list A) k,
   (forall x, In x l -> length (f x) = k) -> length (flat_map f l) = (length l * k)%nat.
@@ -129,6 +143,8 @@ Print Assumptions C14_pivot_cell_law.
 Print Assumptions C14_pivot_groups_of_a_sorted_stream.
 Print Assumptions C14_fromdicts_dicts_id.
 Print Assumptions C14_fromcolumns_columns_id.
+Print Assumptions C14_unpack_frame.
+Print Assumptions C14_unpack_sequence_cells.
 Print Assumptions C14_recast_after_melt.
 Print Assumptions C14_recast_cell_is_the_melted_value.
 Print Assumptions C14_unflatten_flatten_id.
